@@ -209,11 +209,13 @@ class PyDBMLParser:
     def locate_table(self, schema: str, name: str) -> "Table":
         if not self.database:
             raise RuntimeError("Database is not ready")
-        # first by alias
-        result = self.database.table_dict.get(name)
-        if result is None:
-            full_name = f"{schema}.{name}"
-            result = self.database.table_dict.get(full_name)
+        full_name = f"{schema}.{name}"
+        table_dict = self.database.table_dict
+        # a schema-qualified name means exactly that table; an alias can only
+        # stand for an unqualified (public) name
+        result = table_dict.get(full_name)
+        if result is None and schema == 'public':
+            result = table_dict.get(name)
         if result is None:
             raise TableNotFoundError(f"Table {full_name} not present in the database")
         return result
